@@ -453,6 +453,9 @@ val well_formed : job_view -> bool
 val is_job_invalid_light_sw1_IMB_CIPHER_NULL :
   job_view -> n -> n -> n -> n -> n option
 
+val is_job_invalid_light_sw1_IMB_CIPHER_CBCS_1_9 :
+  job_view -> n -> n -> n -> n -> n option
+
 val is_job_invalid_light_sw1_IMB_CIPHER_CBC :
   job_view -> n -> n -> n -> n -> n option
 
@@ -968,15 +971,9 @@ val job_ok : job_view -> bool
 
 val violations : job_view -> n list
 
-val disc_D1_chacha_pairing : job_view -> bool
-
 val disc_D2_key_len_truncated : job_view -> bool
 
 val disc_D3_sgl_total_wraps : job_view -> bool
-
-val disc_D4_cbcs_key_len : job_view -> bool
-
-val disc_D6_sm4_key_len : job_view -> bool
 
 val disc_D8_docsis_offset_wraps : job_view -> bool
 
